@@ -41,6 +41,8 @@ def _rules():
         ("the …_at_trail_position queries agree", C17.l16),
         ("INCREMENTAL-RESET of un-trailed propagator state", C17.l20),
         ("backtrack resets the notified-trail mark", C01.s17),
+        ("no Constraint::post / implied_by returns Ok(()) without posting", C01.s18),
+        ("each public variable constructor reaches exactly one engine constructor", C01.s19),
         ("decision-level bookkeeping is paired over the trailed structures", C01.s4 if hasattr(C01, "s4") else C01.s17),
         ("explanations: direct bound facts name the right variable and direction", C17.l8),
         ("explanations: every bound the propagated value was computed from is stated", C17.l9),
